@@ -209,9 +209,10 @@ class C16(Property):
     "exact value types only, so summation order cannot matter",
     "add() after the mixer has ended is outside the statement and not "
     "generated",
-    "part 2: pre-emption granularity is the source line of lazy_stream.py / "
-    "lazy_io.py; an add overlapping the mixer's termination decision may be "
-    "lost, one that returned strictly before may not"]
+    "part 2: pre-emption granularity is the source line (in part of the "
+    "runs: the bytecode instruction) of lazy_stream.py / lazy_io.py; an add "
+    "overlapping the mixer's termination decision may be lost, one that "
+    "returned strictly before may not"]
 
   def setup(self):
     from audiolazy import lazy_stream
